@@ -8,10 +8,11 @@
    raw message); the elements that are stored agree on the common stored prefix; the 'more'
    indicators tell exactly when something was dropped; after a successful parse the first and the
    last contact are the same whatever the capacity.  One-shot and every chunk schedule.
-   PARTIAL: the URI parameter / URI header lists (capacity oracle + correspondence only: their
-   proof needs the same relation for ul_iter / uh_iter) and the P-Asserted-Identity array (its
-   capacity is a package constant, not caller-chosen). *)
-From Sipsp Require Import Harness Misc SigWalk Sim Capacity CapHeaders.
+   The same for the URI parameter and URI header lists (CapURI.v): objects differing only in the
+   capacity of the array give the same verdict, offset, counts, type flags; the stored entries agree
+   on the common prefix (every flag set; the token-parameter parser runs on the same value in both).
+   Not claimed: the P-Asserted-Identity array (its capacity is a package constant, not caller-chosen). *)
+From Sipsp Require Import Harness Misc SigWalk Sim Capacity CapHeaders CapURI.
 
 Theorem C13_message_capacity_independent : forall flags buf k m m', Rmsg m m' ->
   res_rel Qmsg (parse_sipmsg flags buf k m) (parse_sipmsg flags buf k m').
@@ -64,3 +65,25 @@ Theorem C13_first_and_last_contact_retrievable : forall c, 0 < ct_n c ->
   (ct_n c <= ct_cap c -> length (ct_vals c) = N.to_nat (ct_cap c)) ->
   ct_get c 0 <> None /\ ct_get c (ct_n c - 1) <> None.
 Proof. exact first_last_contact_retrievable. Qed.
+
+(* the URI parameter and URI header lists *)
+Theorem C13_uri_params_capacity_independent : forall flags buf offs l l', Rulc l l' ->
+  res_rel (fun _ _ => Rulc) (parse_all_uri_params flags buf offs l) (parse_all_uri_params flags buf offs l').
+Proof. exact uparams_capacity. Qed.
+Theorem C13_uri_hdrs_capacity_independent : forall flags buf offs l l', Ruhc l l' ->
+  res_rel (fun _ _ => Ruhc) (parse_all_uri_hdrs flags buf offs l) (parse_all_uri_hdrs flags buf offs l').
+Proof. exact uhdrs_capacity. Qed.
+Theorem C13_fresh_uri_lists_related : forall n n',
+  Rulc (uparams_init (repeat uriparam0 n)) (uparams_init (repeat uriparam0 n')) /\
+  Ruhc (uhdrs_init (repeat tokparam0 n)) (uhdrs_init (repeat tokparam0 n')).
+Proof. exact (fun n n' => conj (Rulc_init n n') (Ruhc_init n n')). Qed.
+Theorem C13_uri_lists_what_related_means : forall l l', Rulc l l' ->
+  ul_n l = ul_n l' /\ ul_types l = ul_types l' /\ ul_vno l = ul_vno l' /\
+  forall j, (j < N.to_nat (ul_n l))%nat -> (j < length (ul_params l))%nat -> (j < length (ul_params l'))%nat ->
+    nth j (ul_params l) uriparam0 = nth j (ul_params l') uriparam0.
+Proof. exact Rulc_reads. Qed.
+Theorem C13_uri_hdrs_what_related_means : forall l l', Ruhc l l' ->
+  uh_n l = uh_n l' /\ uh_vno l = uh_vno l' /\
+  forall j, (j < N.to_nat (uh_n l))%nat -> (j < length (uh_hdrs l))%nat -> (j < length (uh_hdrs l'))%nat ->
+    nth j (uh_hdrs l) tokparam0 = nth j (uh_hdrs l') tokparam0.
+Proof. exact Ruhc_reads. Qed.
